@@ -532,6 +532,9 @@ def flatten_self_calls(fnode, methods, keep=(), depth=2):
 
 # ---------------------------------------------------------------- helpers that did not exist on the pinned tree are read in place
 
+INLINED_HELPERS = set()          # id(FunctionDef) of every helper that was read in place at least once
+
+
 def inline_new_helpers(fnode, callables, depth=2):
     """A copy of `fnode` in which every STATEMENT that is a call of a helper in `callables` (name -> (FunctionDef, kind), kind 'method' / 'static' / 'func'; written
     `self.name(..)` resp. `name(..)`), alone (`self.h(a)`), assigned (`x = self.h(a)`) or returned, is replaced by the helper's body - at any nesting depth of the
@@ -540,9 +543,28 @@ def inline_new_helpers(fnode, callables, depth=2):
     `fnode` itself when nothing was inlined."""
     import copy
 
+    def single_exit(body):
+        """guard clauses folded into if / else: [.., if c: ..; return A, rest.., return B]  ->  [.., if c: ..; $ret = A  else: rest..; $ret = B, return $ret]"""
+        for i, st in enumerate(body):
+            if isinstance(st, ast.If) and not st.orelse and st.body and isinstance(st.body[-1], ast.Return) and st.body[-1].value is not None \
+                    and isinstance(body[-1], ast.Return) and body[-1].value is not None and i < len(body) - 1:
+                rest = single_exit(body[i + 1:])
+                if rest is None or not isinstance(rest[-1], ast.Return):
+                    return None
+                mk = lambda v, at: ast.copy_location(ast.Assign([ast.Name('$ret', ast.Store())], v), at)
+                then = list(st.body[:-1]) + [mk(st.body[-1].value, st.body[-1])]
+                other = list(rest[:-1]) + [mk(rest[-1].value, rest[-1])]
+                new_if = ast.copy_location(ast.If(st.test, then, other), st)
+                return list(body[:i]) + [new_if, ast.copy_location(ast.Return(ast.Name('$ret', ast.Load())), body[-1])]
+        return body
+
     def simple(m):
+        import copy as _c
         body = [s for s in m.body if not (isinstance(s, ast.Expr) and isinstance(s.value, ast.Constant))]
         if not body:
+            return None
+        body = single_exit(_c.deepcopy(body))
+        if body is None:
             return None
         last_ret = isinstance(body[-1], ast.Return)
         for s in (body[:-1] if last_ret else body):
@@ -648,6 +670,7 @@ def inline_new_helpers(fnode, callables, depth=2):
         elif ret is not None and not isinstance(ret, (ast.Name, ast.Constant)):
             out.append(ast.copy_location(ast.Expr(ret), st))
         changed[0] = True
+        INLINED_HELPERS.add(id(m))
         res = []
         for s in out:
             res += expand(s, level - 1)
